@@ -111,15 +111,26 @@ class _Member(object):
 
 
 class _HostInt(_Member, int):
-    pass
+    # a member prints as its name, not as its number (as members of mixed-in Enum classes do)
+    def __repr__(self):
+        return '<int member %s>' % int.__repr__(self)
+
+    __str__ = __repr__
 
 
 class _HostFloat(_Member, float):
-    pass
+    def __repr__(self):
+        return '<float member %s>' % float.__repr__(self)
+
+    __str__ = __repr__
 
 
 class _HostStr(_Member, str):
-    pass
+    # like a member of a (str, Enum) class: str() of it is not its content; the content is what a text function must see
+    def __str__(self):
+        return '<text member %s>' % str.__getitem__(self, slice(None))
+
+    __repr__ = __str__
 
 
 class _HostDateTime(datetime.datetime):
@@ -274,6 +285,27 @@ class Env(object):
                 'number / text / date-time / list an instance of a trivial subclass of float, int, str, datetime, list (what '
                 'numpy.float64, an IntEnum, a rich-text str or a pandas Timestamp are) it gives %r' % (
                     formula, dict((k, enc(v)) for k, v in vars.items()), o1, o2), o1, o2))
+        # ... and with every list handed in as a tuple (rows as a database driver delivers them): a tuple is an array like a list is
+        if any(type(v) is list for v in vars.values()):
+            def as_tuple(v, depth=0):
+                return tuple(as_tuple(x, depth + 1) for x in v) if type(v) is list and depth < 4 else v
+
+            def untuple(j):
+                if isinstance(j, dict) and '$tuple' in j:
+                    return [untuple(x) for x in j['$tuple']]
+                if isinstance(j, list):
+                    return [untuple(x) for x in j]
+                return j
+            vars3 = dict((k, as_tuple(v)) for k, v in vars.items())
+            saved, self.channels = self.channels, 0
+            try:
+                o3 = self.evo(formula, vars3, funcs, None)
+            finally:
+                self.channels = saved
+            if not same_value(untuple(o1), untuple(o3)):
+                raise ChannelDiff(fail(
+                    'the same values with every list handed in as a tuple give a different result: %s with variables %s gives %r, with '
+                    'tuples %r' % (formula, dict((k, enc(v)) for k, v in vars.items()), o1, o3), o1, o3))
 
     # -- delivery channels ----------------------------------------------------
     channels = 0        # N > 0: of every N evaluations that bind variables, one is repeated with the values handed in by
